@@ -84,8 +84,10 @@ u8* vpx_pthread_getspecific(u32 k) { return vp_tls(); }
 u64 _ZN3tbb6detail2r127global_control_active_valueEi(u32 p) { return 0; }       /* terminate_on_exception is off (the default) */
 u8 _ZN3tbb6detail2r122terminate_on_exceptionEv(void) { return 0; }
 u64 _ZN3tbb6detail2r115cache_line_sizeEv(void) { return 128; }
+#ifndef VP_REAL_ARENA_CPP   /* (props/C16 iso_dispatch includes the real arena.cpp and stubs threading_control::adjust_demand instead) */
 void _ZN3tbb6detail2r15arena15request_workersEiib(struct S_class_tbb__detail__r1__arena* a, u32 m, u32 w, u8 k) {}   /* no workers exist in this world */
 void _ZN3tbb6detail2r15arena11out_of_workEv(struct S_class_tbb__detail__r1__arena* a) {}
+#endif
 void _ZN3tbb6detail2r113observer_list25do_notify_entry_observersERPNS1_14observer_proxyEb(struct S_class_tbb__detail__r1__observer_list* l, struct S_class_tbb__detail__r1__observer_proxy** p, u8 w) {}
 void _ZN3tbb6detail2r121notify_by_address_oneEPv(u8* a) {}                           /* nobody sleeps on an address: one thread */
 /* everything below is reachable only through code that needs a second thread, a coroutine or a sleeping thread: none exists */
